@@ -55,15 +55,18 @@ pub struct Cfg {
     pub ended0: bool,
     #[serde(default)]
     pub iscr: Vec<Effect>,
+    /// script of the handler of the actor's own timer ticks (interval / interval_with / delayed_send)
+    #[serde(default)]
+    pub tscr: Vec<Effect>,
 }
 impl Cfg {
     fn is_default(&self) -> bool {
-        self.cap == -1 && self.strat == "restart" && !self.stream && self.tmo < 0 && !self.failto && !self.owning && self.sscr.is_empty() && self.pscr.is_empty() && self.fscr.is_empty() && self.ty == "0" && self.items0 == 0 && !self.ended0 && self.iscr.is_empty()
+        self.cap == -1 && self.strat == "restart" && !self.stream && self.tmo < 0 && !self.failto && !self.owning && self.sscr.is_empty() && self.pscr.is_empty() && self.fscr.is_empty() && self.ty == "0" && self.items0 == 0 && !self.ended0 && self.iscr.is_empty() && self.tscr.is_empty()
     }
 }
 impl Default for Cfg {
     fn default() -> Self {
-        Cfg { cap: -1, strat: "restart".into(), stream: false, tmo: -1, failto: false, owning: false, sscr: vec![], pscr: vec![], fscr: vec![], ty: "0".into(), items0: 0, ended0: false, iscr: vec![] }
+        Cfg { cap: -1, strat: "restart".into(), stream: false, tmo: -1, failto: false, owning: false, sscr: vec![], pscr: vec![], fscr: vec![], ty: "0".into(), items0: 0, ended0: false, iscr: vec![], tscr: vec![] }
     }
 }
 
@@ -600,7 +603,7 @@ fn registered_name<const K: usize>() -> String {
 fn spawn_actor_k<const K: usize>(c: &str, o: &Op) -> Res {
     let ex = crate::actors::exec();
     WORLD.with(|w| {
-        w.borrow_mut().scripts.insert(o.a.clone(), ActorScripts { sscr: o.cfg.sscr.clone(), pscr: o.cfg.pscr.clone(), fscr: o.cfg.fscr.clone(), iscr: o.cfg.iscr.clone() })
+        w.borrow_mut().scripts.insert(o.a.clone(), ActorScripts { sscr: o.cfg.sscr.clone(), pscr: o.cfg.pscr.clone(), fscr: o.cfg.fscr.clone(), iscr: o.cfg.iscr.clone(), tscr: o.cfg.tscr.clone() })
     });
     ex.label_next_actor(&o.a);
     let cf = &o.cfg;
